@@ -126,6 +126,13 @@ class Schema2DF(Schema2Base):
             constants.description: entry.description,
             constants.equivalent_to: self._get_tag_equivalent_to(entry),
         }
+        if not include_props:
+            # A placeholder (e.g. a standard unit class listed only to hold a library unit) carries no properties,
+            # as in the XML and MediaWiki writers; otherwise it is read back as a second definition of the entry.
+            new_row[constants.hed_id] = ""
+            new_row[constants.attributes] = ""
+            new_row[constants.description] = ""
+            new_row[constants.equivalent_to] = ""
         # Handle the special case of units, which have the extra unit class
         if hasattr(entry, "unit_class_entry"):
             class_entry_name = entry.unit_class_entry.name
